@@ -1615,3 +1615,102 @@ Proof.
     induction s as [|y s IHs]; cbn; [reflexivity|]. now rewrite Elt, IHs. }
   rewrite Eis. exact (sort_dedupe_strict (kf (length pk)) _).
 Qed.
+
+(** ---- command level: `wrgl merge` without --no-gui never concludes a merge that has an
+    unresolved record ---- *)
+Lemma run_merge_inv base others policy remmode blocks o :
+  run_merge base others policy remmode blocks = Ok o ->
+  start_ok others = true /\
+  compare_columns (header_of base) (map header_of others) = Ok (mo_cd o) /\
+  mo_recs o = merge_records (mo_cd o) base others.
+Proof.
+  unfold run_merge. destruct (start_ok others); cbn [negb]; [|discriminate].
+  destruct (compare_columns (header_of base) (map header_of others)) as [cd| |]; try discriminate.
+  cbn [rbind]. destruct (result_rows _ _ _ _ _); try discriminate. cbn [rbind].
+  intros H; injection H as <-. now repeat split.
+Qed.
+
+Lemma run_merge_rows_path base others policy remmode o blocks :
+  run_merge base others policy remmode blocks = Ok o ->
+  forall policy' remmode', exists o', run_merge base others policy' remmode' false = Ok o' /\
+    mo_cd o' = mo_cd o /\ mo_recs o' = mo_recs o.
+Proof.
+  intros H policy' remmode'. apply run_merge_inv in H as (Hs & Hc & Hr).
+  unfold run_merge. rewrite Hs, Hc. cbn [negb rbind]. unfold result_rows. cbn [andb rbind].
+  eexists. split; [reflexivity|]. cbn [mo_cd mo_recs]. now split.
+Qed.
+
+Lemma cmd_committed_resolved base others blocks o :
+  cmd_merge base others blocks = CmdCommitted o -> all_resolved (mo_recs o) = true.
+Proof.
+  unfold cmd_merge. destruct (run_merge base others 0 1 false) as [o0| |] eqn:E0; try discriminate.
+  destruct (all_resolved (mo_recs o0)) eqn:Ea; [|discriminate].
+  destruct (run_merge base others 0 1 blocks) as [o1| |] eqn:E1; try discriminate.
+  intros H; injection H as <-.
+  apply run_merge_inv in E0 as (_ & Hc0 & Hr0). apply run_merge_inv in E1 as (_ & Hc1 & Hr1).
+  rewrite Hc0 in Hc1. injection Hc1 as Hcd. rewrite Hr1, <- Hcd, <- Hr0. exact Ea.
+Qed.
+
+Lemma cmd_unresolved_refused base others policy remmode blocks blocks' o0 :
+  run_merge base others policy remmode blocks = Ok o0 -> all_resolved (mo_recs o0) = false ->
+  cmd_merge base others blocks' = CmdRefused.
+Proof.
+  intros H Ha. destruct (run_merge_rows_path _ _ _ _ _ _ H 0 1) as (o' & Ho' & _ & Hr).
+  unfold cmd_merge. rewrite Ho', Hr, Ha. reflexivity.
+Qed.
+
+Lemma all_resolved_false recs : all_resolved recs = false <-> exists kr, In kr recs /\ r_resolved (k_res kr) = false.
+Proof.
+  unfold all_resolved. split.
+  - intros H. induction recs as [|kr l IH]; cbn in H; [discriminate|].
+    destruct (r_resolved (k_res kr)) eqn:E; [|exists kr; split; [now left|assumption]].
+    destruct (IH H) as (x & Hx & Hr). exists x. split; [now right|assumption].
+  - intros (kr & Hin & Hr). destruct (forallb _ recs) eqn:E; [|reflexivity].
+    rewrite forallb_forall in E. rewrite (E kr Hin) in Hr. discriminate Hr.
+Qed.
+
+(** under the guard the command refuses exactly when the specification finds a conflict, and
+    otherwise commits the specified table *)
+Theorem cmd_guard cols pk base others blocks :
+  guard cols pk base others ->
+  ((exists k, table_keys pk base others k /\
+              is_conflict (spec_row (length cols) (lookup base k) (map (fun o => lookup o k) others)) = true) ->
+   cmd_merge base others blocks = CmdRefused) /\
+  ((forall k, table_keys pk base others k ->
+              is_conflict (spec_row (length cols) (lookup base k) (map (fun o => lookup o k) others)) = false) ->
+   exists o, cmd_merge base others blocks = CmdCommitted o /\ mo_cols o = cols /\
+     forall r, In r (mo_rows o) <->
+       exists k, table_keys pk base others k /\
+                 outcome_row (spec_row (length cols) (lookup base k) (map (fun o => lookup o k) others)) = Some r).
+Proof.
+  intros Hg.
+  destruct (merge_guard cols pk base others 0 1 false Hg) as (o0 & Hrun0 & _ & _ & _); [lia|].
+  destruct (run_merge_inv _ _ _ _ _ _ Hrun0) as (_ & Hcd & Hrecs).
+  assert (Hunres : all_resolved (mo_recs o0) = false <->
+                   exists k, table_keys pk base others k /\
+                     is_conflict (spec_row (length cols) (lookup base k) (map (fun o => lookup o k) others)) = true).
+  { rewrite all_resolved_false, Hrecs. split.
+    - intros (kr & Hin & Hr). apply (l3_recs cols pk base others (mo_cd o0) Hg Hcd) in Hin as (k & Hk & Hnc & ->).
+      exists k. split; [assumption|]. cbn [k_res] in Hr.
+      pose proof (l3_spec cols pk base others (mo_cd o0) Hg Hcd k Hk) as Hs.
+      destruct (spec_row (length cols) (lookup base k) (map (fun o => lookup o k) others)); [congruence| | reflexivity|].
+      + destruct Hs as [_ Hs]. rewrite Hs in Hr. discriminate Hr.
+      + destruct Hs as (_ & Hs & _). congruence.
+    - intros (k & Hk & Hc).
+      pose proof (l3_spec cols pk base others (mo_cd o0) Hg Hcd k Hk) as Hs.
+      destruct (spec_row (length cols) (lookup base k) (map (fun o => lookup o k) others)); try discriminate Hc.
+      destruct Hs as [Hnc Hr].
+      exists {| k_key := k; k_m := mk_mrec base others k; k_res := resolve (mo_cd o0) (mk_mrec base others k) |}.
+      split; [apply (l3_recs cols pk base others (mo_cd o0) Hg Hcd); exists k; now repeat split|exact Hr]. }
+  split.
+  - intros Hex. apply (cmd_unresolved_refused base others 0 1 false blocks o0 Hrun0). now apply Hunres.
+  - intros Hall.
+    assert (Ha : all_resolved (mo_recs o0) = true).
+    { destruct (all_resolved (mo_recs o0)) eqn:E; [reflexivity|].
+      destruct (proj1 Hunres eq_refl) as (k & Hk & Hc). rewrite (Hall k Hk) in Hc. discriminate Hc. }
+    destruct (merge_guard cols pk base others 0 1 blocks Hg) as (o & Hrun & Hcols & _ & Hrows); [lia|].
+    exists o. unfold cmd_merge. rewrite Hrun0, Ha, Hrun. split; [reflexivity|]. split; [assumption|].
+    intros r. rewrite Hrows. split; intros (k & Hk & H); exists k; (split; [assumption|]).
+    + now rewrite final_row_no_conflict in H by (now apply Hall).
+    + now rewrite final_row_no_conflict by (now apply Hall).
+Qed.
